@@ -594,17 +594,19 @@ def kcoreness_centrality_bd(CIJ):
     -------
     coreness : Nx1 np.ndarray
         node coreness
-    kn : Nx1 np.ndarray
-        size of k-core for all values of K between 1 and N
+    kn : (2N-1)x1 np.ndarray
+        size of k-core for all values of K between 0 and 2N-2 (the largest
+        possible in- plus out-degree)
     '''
     N = len(CIJ)
 
     coreness = np.zeros((N,))
-    kn = np.zeros((N,))
+    kn = np.zeros((max(2 * N - 1, 0),))
 
-    for k in range(N):
+    for k in range(2 * N - 1):
         CIJkcore, kn[k] = kcore_bd(CIJ, k)
-        ss = np.sum(CIJkcore, axis=0) > 0
+        # a node belongs to the core if it keeps any connection, in or out
+        ss = (np.sum(CIJkcore, axis=0) + np.sum(CIJkcore, axis=1)) > 0
         coreness[ss] = k
 
     return coreness, kn
